@@ -29,6 +29,12 @@ def main():
             Vertex.NEIGHBOR_CACHING = bool(job["flag"])
             loader = dill if job.get("loader") == "dill" else pickle
             world = loader.loads(job["blob"])
+            if "c05suffix" in job["want"]:
+                from checks import c05
+
+                res["outs"] = c05.continue_in_this_process(world["vs"], world["ls"], job["ops"])
+                results.append(res)
+                continue
             if "c10" in job["want"]:
                 from eglib import canon
 
